@@ -1,6 +1,1258 @@
-//! C11 — stub (monitor not built yet).
-use crate::core::Ctx;
+//! C11 — CA protocol XML (RFC 6492, 8181, 8183) round-trips and stays
+//! well-formed; the parsers never panic.
+//!
+//! Oracles
+//!  1. well-formedness: an independent parser (python3 `xml.parsers.expat`
+//!     through `tools/xml_wf.py`) must consume every written document;
+//!  2. round trip: `decode(write(m)) == m` by the message types' `PartialEq`
+//!     (the property *is* this equivalence);
+//!  3. robustness: the six parsers return `Ok` or `Err` on byte-level and
+//!     tag-level mutants of valid documents and on random documents.
+//!
+//! Scope decisions (see DESIGN §4 C11 and the property text): only
+//! protocol-valid field values are held to oracle 1 and 2. Values the API
+//! admits but the protocols do not (a handle made with the unchecked
+//! `Handle::new`, a `<publish>` without tag, an error reply without errors,
+//! an empty base64 payload, a sub-second `not_after`) are still generated, but
+//! what happens to them is only *recorded* (`lenient:*` observations).
+
+// Helper modules of this monitor (value generators, document mutators). They
+// are declared here so that `lib.rs` needs no extra `pub mod` lines.
+#[path = "c11_gen.rs"]
+mod c11_gen;
+#[path = "c11_mut.rs"]
+mod c11_mut;
+
+use self::c11_gen as gen;
+use self::c11_mut as mutate;
+use crate::core::{Ctx, Rng, Stage};
+use crate::keys::PoolSigner;
+use rpki::ca::csr::{Csr, RpkiCaCsr};
+use rpki::ca::idcert::IdCert;
+use rpki::ca::idexchange::{
+    ChildRequest, Handle, ParentResponse, PublisherRequest, RepositoryResponse, ServiceUri,
+};
+use rpki::ca::provisioning as prov;
+use rpki::ca::publication as publ;
+use rpki::crypto::KeyIdentifier;
+use rpki::repository::cert::{Cert, KeyUsage, Overclaim, TbsCert};
+use rpki::repository::resources::{AsBlocks, Asn, Ipv4Blocks, Ipv6Blocks, Prefix};
+use rpki::repository::x509::{Time, Validity};
+use rpki::rrdp;
+use rpki::uri;
+use serde_json::{json, Value};
+use std::io::Write as _;
+use std::process::{Command, Stdio};
+use std::str::FromStr;
+
+//------------ the message under test -----------------------------------------
+
+#[derive(Clone, Debug, PartialEq)]
+enum AnyMsg {
+    Prov(prov::Message),
+    Publ(publ::Message),
+    ChildReq(ChildRequest),
+    ParentResp(ParentResponse),
+    PubReq(PublisherRequest),
+    RepoResp(RepositoryResponse),
+}
+
+#[derive(Clone, Copy, Debug, PartialEq, Eq)]
+enum Kind {
+    Prov,
+    Publ,
+    ChildReq,
+    ParentResp,
+    PubReq,
+    RepoResp,
+}
+
+const KINDS: [Kind; 6] = [Kind::Prov, Kind::Publ, Kind::ChildReq, Kind::ParentResp, Kind::PubReq, Kind::RepoResp];
+
+impl Kind {
+    fn name(self) -> &'static str {
+        match self {
+            Kind::Prov => "provisioning",
+            Kind::Publ => "publication",
+            Kind::ChildReq => "child_request",
+            Kind::ParentResp => "parent_response",
+            Kind::PubReq => "publisher_request",
+            Kind::RepoResp => "repository_response",
+        }
+    }
+
+    fn parse(self, doc: &[u8]) -> Result<AnyMsg, String> {
+        match self {
+            Kind::Prov => prov::Message::decode(doc).map(AnyMsg::Prov).map_err(|e| e.to_string()),
+            Kind::Publ => publ::Message::decode(doc).map(AnyMsg::Publ).map_err(|e| e.to_string()),
+            Kind::ChildReq => ChildRequest::parse(doc).map(AnyMsg::ChildReq).map_err(|e| e.to_string()),
+            Kind::ParentResp => ParentResponse::parse(doc).map(AnyMsg::ParentResp).map_err(|e| e.to_string()),
+            Kind::PubReq => PublisherRequest::parse(doc).map(AnyMsg::PubReq).map_err(|e| e.to_string()),
+            Kind::RepoResp => RepositoryResponse::parse(doc).map(AnyMsg::RepoResp).map_err(|e| e.to_string()),
+        }
+    }
+}
+
+impl AnyMsg {
+    fn kind(&self) -> Kind {
+        match self {
+            AnyMsg::Prov(_) => Kind::Prov,
+            AnyMsg::Publ(_) => Kind::Publ,
+            AnyMsg::ChildReq(_) => Kind::ChildReq,
+            AnyMsg::ParentResp(_) => Kind::ParentResp,
+            AnyMsg::PubReq(_) => Kind::PubReq,
+            AnyMsg::RepoResp(_) => Kind::RepoResp,
+        }
+    }
+
+    /// Through `write_xml` (the `to_xml_*` helpers are thin wrappers that
+    /// `unwrap` its result).
+    fn write(&self) -> Result<Vec<u8>, String> {
+        let mut v = Vec::new();
+        let r = match self {
+            AnyMsg::Prov(m) => m.write_xml(&mut v),
+            AnyMsg::Publ(m) => m.write_xml(&mut v),
+            AnyMsg::ChildReq(m) => m.write_xml(&mut v),
+            AnyMsg::ParentResp(m) => m.write_xml(&mut v),
+            AnyMsg::PubReq(m) => m.write_xml(&mut v),
+            AnyMsg::RepoResp(m) => m.write_xml(&mut v),
+        };
+        r.map(|_| v).map_err(|e| e.to_string())
+    }
+}
+
+//------------ a generated case -----------------------------------------------
+
+/// A value that travels as attribute text through `Display` / `FromStr`;
+/// kept to name the culprit when a round trip fails.
+#[derive(Clone)]
+enum TextField {
+    As(&'static str, AsBlocks),
+    V4(&'static str, Ipv4Blocks),
+    V6(&'static str, Ipv6Blocks),
+    NotAfter(Time),
+}
+
+impl TextField {
+    /// `Some((field, kind, text))` if the value's own text form (what the
+    /// writer puts into the attribute) does not parse back to the value.
+    fn broken(&self) -> Option<(&'static str, &'static str, String)> {
+        match self {
+            TextField::As(n, b) => {
+                let t = b.to_string();
+                match AsBlocks::from_str(&t) {
+                    Ok(x) if &x == b => None,
+                    _ => Some((n, "as-blocks-text-form", t)),
+                }
+            }
+            TextField::V4(n, b) => {
+                let t = b.to_string();
+                match Ipv4Blocks::from_str(&t) {
+                    Ok(x) if &x == b => None,
+                    _ => Some((n, "ipv4-blocks-text-form", t)),
+                }
+            }
+            TextField::V6(n, b) => {
+                let t = b.to_string();
+                match Ipv6Blocks::from_str(&t) {
+                    Ok(x) if &x == b => None,
+                    _ => Some((n, "ipv6-blocks-text-form", t)),
+                }
+            }
+            TextField::NotAfter(t) => {
+                let s = t.to_rfc3339_opts(chrono::SecondsFormat::Secs, true);
+                match chrono::DateTime::<chrono::Utc>::from_str(&s) {
+                    Ok(x) if Time::new(x) == *t => None,
+                    _ => Some(("resource_set_notafter", "time-text-form", s)),
+                }
+            }
+        }
+    }
+}
+
+struct Case {
+    variant: &'static str,
+    msg: AnyMsg,
+    /// free-form string fields (name, value) — for the case signature and the report
+    strings: Vec<(&'static str, String)>,
+    /// list-size classes etc.
+    shape: String,
+    text_fields: Vec<TextField>,
+    /// `Some(reason)`: built from values outside "protocol-valid"; observed only
+    lenient: Option<&'static str>,
+}
+
+impl Case {
+    fn new(variant: &'static str, msg: AnyMsg) -> Self {
+        Case { variant, msg, strings: Vec::new(), shape: String::new(), text_fields: Vec::new(), lenient: None }
+    }
+
+    fn signature(&self) -> String {
+        let mut sp = Vec::new();
+        let mut ws = Vec::new();
+        for (n, v) in &self.strings {
+            if gen::has_special(v) {
+                sp.push(*n);
+            }
+            if gen::has_edge_space(v) {
+                ws.push(*n);
+            }
+        }
+        format!(
+            "{}|special-chars-in:{}|edge-spaces-in:{}|{}{}",
+            self.variant,
+            if sp.is_empty() { "-".to_string() } else { sp.join("+") },
+            if ws.is_empty() { "-".to_string() } else { ws.join("+") },
+            self.shape,
+            match self.lenient {
+                Some(r) => format!("|lenient:{r}"),
+                None => String::new(),
+            }
+        )
+    }
+
+    fn describe(&self, doc: Option<&[u8]>) -> Value {
+        let strings: Vec<Value> = self.strings.iter().map(|(n, v)| json!({"field": n, "value": clip(v, 400)})).collect();
+        json!({
+            "variant": self.variant,
+            "string_fields": strings,
+            "shape": self.shape,
+            "lenient": self.lenient,
+            "xml": doc.map(|d| clip(&String::from_utf8_lossy(d), 6000)),
+        })
+    }
+}
+
+fn clip(s: &str, max: usize) -> String {
+    if s.len() <= max {
+        s.to_string()
+    } else {
+        let mut end = max;
+        while !s.is_char_boundary(end) {
+            end -= 1;
+        }
+        format!("{}…[{} bytes in total]", &s[..end], s.len())
+    }
+}
+
+//------------ certificates, CSRs, identity certificates ----------------------
+
+struct Crypto {
+    certs: Vec<Cert>,
+    csrs: Vec<RpkiCaCsr>,
+    id_certs: Vec<Vec<u8>>,
+    key_ids: Vec<KeyIdentifier>,
+}
+
+fn fixed_validity() -> Validity {
+    Validity::new(Time::utc(2024, 1, 1, 0, 0, 0), Time::utc(2034, 12, 31, 23, 59, 59))
+}
+
+impl Crypto {
+    /// Built once per shard with the library's own builders over pool keys.
+    fn build() -> Result<Self, String> {
+        let pool = PoolSigner::new(3);
+        let mut certs = Vec::new();
+        let repo = uri::Rsync::from_str("rsync://repo.example/m&m/ca's/").map_err(|e| e.to_string())?;
+        let mft = uri::Rsync::from_str("rsync://repo.example/m&m/ca's/x.mft").map_err(|e| e.to_string())?;
+        let notify = uri::Https::from_str("https://rrdp.example/n'&/notification.xml").map_err(|e| e.to_string())?;
+        for i in 0..3usize {
+            let pubkey = pool.info(i);
+            let issuer = pool.info(0);
+            let mut tbs = TbsCert::new(
+                (100 + i as u64).into(),
+                issuer.to_subject_name(),
+                fixed_validity(),
+                None,
+                pubkey,
+                KeyUsage::Ca,
+                Overclaim::Trim,
+            );
+            tbs.set_basic_ca(Some(true));
+            tbs.set_ca_repository(Some(repo.clone()));
+            tbs.set_rpki_manifest(Some(mft.clone()));
+            if i != 1 {
+                tbs.set_rpki_notify(Some(notify.clone()));
+            }
+            match i {
+                0 => {
+                    tbs.build_v4_resource_blocks(|b| b.push(Prefix::new(0, 0)));
+                    tbs.build_v6_resource_blocks(|b| b.push(Prefix::new(0, 0)));
+                    tbs.build_as_resource_blocks(|b| b.push((Asn::MIN, Asn::MAX)));
+                }
+                1 => {
+                    tbs.build_v4_resource_blocks(|b| b.push(Prefix::new(std::net::Ipv4Addr::new(10, 0, 0, 0), 8)));
+                    tbs.build_as_resource_blocks(|b| b.push((Asn::from_u32(64512), Asn::from_u32(64600))));
+                }
+                _ => {
+                    tbs.set_v4_resources_inherit();
+                    tbs.set_v6_resources_inherit();
+                    tbs.set_as_resources_inherit();
+                }
+            }
+            if i > 0 {
+                tbs.set_authority_key_identifier(Some(issuer.key_identifier()));
+                tbs.set_crl_uri(Some(uri::Rsync::from_str("rsync://repo.example/m&m/ca's/x.crl").map_err(|e| e.to_string())?));
+                tbs.set_ca_issuer(Some(uri::Rsync::from_str("rsync://repo.example/m&m/ta.cer").map_err(|e| e.to_string())?));
+            }
+            let cert = tbs.into_cert(&pool, &0usize).map_err(|e| e.to_string())?;
+            // what a peer would hold: the decoded form of the encoded certificate
+            let der = cert.to_captured();
+            certs.push(Cert::decode(der.as_slice()).map_err(|e| e.to_string())?);
+        }
+        let mut csrs = Vec::new();
+        for i in 0..3usize {
+            let der = Csr::construct_rpki_ca(&pool, &i, &repo, &mft, if i == 1 { None } else { Some(&notify) })
+                .map_err(|e| e.to_string())?;
+            csrs.push(RpkiCaCsr::decode(der.as_slice()).map_err(|e| e.to_string())?);
+        }
+        let mut id_certs = Vec::new();
+        for i in 0..2usize {
+            let c = IdCert::new_ta(fixed_validity(), &i, &pool).map_err(|e| e.to_string())?;
+            id_certs.push(c.to_captured().as_slice().to_vec());
+        }
+        let key_ids = (0..3).map(|i| pool.info(i).key_identifier()).collect();
+        Ok(Crypto { certs, csrs, id_certs, key_ids })
+    }
+}
+
+//------------ generator of cases ---------------------------------------------
+
+struct Gen<'a> {
+    rng: Rng,
+    crypto: Option<&'a Crypto>,
+    refused_uri: u64,
+    refused_handle: u64,
+    res_stats: gen::ResStats,
+    refused_other: u64,
+}
+
+fn handle_is_protocol_valid(s: &str) -> bool {
+    // RFC 8183: handle = xsd:string { maxLength="255" pattern="[\-_A-Za-z0-9/]*" }, non-empty in the library
+    !s.is_empty() && s.len() <= 255 && s.bytes().all(|b| b.is_ascii_alphanumeric() || b == b'-' || b == b'_' || b == b'/')
+}
+
+impl<'a> Gen<'a> {
+    /// A handle through the checked constructor. Rarely (and then the case
+    /// becomes lenient) through the unchecked `Handle::new`.
+    fn handle<T>(&mut self, case_lenient: &mut Option<&'static str>) -> (Handle<T>, String) {
+        if self.rng.chance(1, 40) {
+            let s = gen::freeform(&mut self.rng);
+            if !handle_is_protocol_valid(&s) {
+                *case_lenient = Some("unchecked-handle");
+            }
+            return (Handle::new(s.as_str().into()), s);
+        }
+        if self.rng.chance(1, 30) {
+            // the checked constructor must refuse these; count it
+            let bad = match self.rng.below(3) {
+                0 => String::new(),
+                1 => "a".repeat(256),
+                _ => gen::freeform(&mut self.rng),
+            };
+            if !handle_is_protocol_valid(&bad) && Handle::<T>::from_str(&bad).is_err() {
+                self.refused_handle += 1;
+            }
+        }
+        loop {
+            let s = gen::handle_str(&mut self.rng);
+            match Handle::<T>::from_str(&s) {
+                Ok(h) => return (h, s),
+                Err(_) => self.refused_handle += 1,
+            }
+        }
+    }
+
+    fn class_name(&mut self) -> (prov::ResourceClassName, String) {
+        let s = gen::freeform(&mut self.rng);
+        let name = match self.rng.below(3) {
+            0 => prov::ResourceClassName::from(s.as_str()),
+            1 => prov::ResourceClassName::from(s.clone()),
+            _ => prov::ResourceClassName::from_str(&s).expect("infallible"),
+        };
+        (name, s)
+    }
+
+    fn rsync(&mut self) -> uri::Rsync {
+        gen::rsync(&mut self.rng, &mut self.refused_uri)
+    }
+
+    fn https(&mut self) -> uri::Https {
+        gen::https(&mut self.rng, &mut self.refused_uri)
+    }
+
+    fn service_uri(&mut self) -> (ServiceUri, String) {
+        if self.rng.bool() {
+            let u = self.https();
+            let s = u.to_string();
+            (ServiceUri::Https(u), s)
+        } else {
+            let scheme = *self.rng.pick(&["http://", "HTTP://", "Http://", "hTTp://"]);
+            let s = format!("{}{}", scheme, gen::freeform(&mut self.rng));
+            match ServiceUri::from_str(&s) {
+                Ok(u) => (u, s),
+                Err(_) => {
+                    self.refused_other += 1;
+                    let u = self.https();
+                    let s = u.to_string();
+                    (ServiceUri::Https(u), s)
+                }
+            }
+        }
+    }
+
+    fn tag(&mut self) -> Option<String> {
+        if self.rng.chance(1, 5) {
+            None
+        } else {
+            Some(gen::freeform(&mut self.rng))
+        }
+    }
+
+    fn resource_set(&mut self, case: &mut Vec<TextField>) -> gen::SetGen {
+        let g = gen::resource_set(&mut self.rng, &mut self.res_stats);
+        case.push(TextField::As("resource_set_as", g.set.asn().clone()));
+        case.push(TextField::V4("resource_set_ipv4", g.set.ipv4().clone()));
+        case.push(TextField::V6("resource_set_ipv6", g.set.ipv6().clone()));
+        g
+    }
+
+    fn limit(&mut self, case: &mut Vec<TextField>) -> gen::LimitGen {
+        let g = gen::limit(&mut self.rng, &mut self.res_stats);
+        if let Some(b) = g.limit.asn() {
+            case.push(TextField::As("req_resource_set_as", b.clone()));
+        }
+        if let Some(b) = g.limit.ipv4() {
+            case.push(TextField::V4("req_resource_set_ipv4", b.clone()));
+        }
+        if let Some(b) = g.limit.ipv6() {
+            case.push(TextField::V6("req_resource_set_ipv6", b.clone()));
+        }
+        g
+    }
+
+    fn list_len(&mut self, many_max: u64) -> (usize, &'static str) {
+        let many_max = if gen::small() { many_max.min(3) } else { many_max };
+        match self.rng.below(6) {
+            0 => (0, "0"),
+            1 | 2 => (1, "1"),
+            _ => (self.rng.range(2, many_max) as usize, "many"),
+        }
+    }
+
+    fn key_id(&mut self) -> KeyIdentifier {
+        if let Some(c) = self.crypto {
+            if self.rng.bool() {
+                return *self.rng.pick(&c.key_ids);
+            }
+        }
+        KeyIdentifier::from(gen::key_id20(&mut self.rng))
+    }
+
+    /// Base64 payload of an identity message.
+    fn id_cert(&mut self, case_lenient: &mut Option<&'static str>) -> (publ::Base64, &'static str) {
+        if let Some(c) = self.crypto {
+            if self.rng.chance(3, 4) {
+                return (publ::Base64::from_content(&c.id_certs[self.rng.usize_below(c.id_certs.len())]), "idcert");
+            }
+        }
+        if self.rng.chance(1, 40) {
+            *case_lenient = Some("empty-base64-content");
+            return (publ::Base64::from_content(b""), "empty");
+        }
+        let bytes = gen::content(&mut self.rng);
+        (publ::Base64::from_content(&bytes), "bytes")
+    }
+
+    //--- provisioning
+
+    fn entitlement(
+        &mut self,
+        strings: &mut Vec<(&'static str, String)>,
+        text_fields: &mut Vec<TextField>,
+    ) -> (prov::ResourceClassEntitlements, String) {
+        let c = self.crypto.expect("crypto");
+        let (name, s) = self.class_name();
+        strings.push(("class_name", s));
+        let set = self.resource_set(text_fields);
+        let not_after = gen::whole_second_time(&mut self.rng);
+        text_fields.push(TextField::NotAfter(not_after));
+        let (n, ncls) = self.list_len(5);
+        let mut issued = Vec::new();
+        for _ in 0..n {
+            let uri = self.rsync();
+            let lim = self.limit(text_fields);
+            issued.push(prov::IssuedCert::new(uri, lim.limit, self.rng.pick(&c.certs).clone()));
+        }
+        let signing = prov::SigningCert::new(self.rsync(), self.rng.pick(&c.certs).clone());
+        let shape = format!("issued={ncls},{}", set.class);
+        (prov::ResourceClassEntitlements::new(name, set.set, not_after, issued, signing), shape)
+    }
+
+    fn provisioning(&mut self) -> Case {
+        let mut lenient = None;
+        let (sender, _) = self.handle(&mut lenient);
+        let (recipient, _) = self.handle(&mut lenient);
+        let mut strings: Vec<(&'static str, String)> = Vec::new();
+        let mut text_fields: Vec<TextField> = Vec::new();
+        let mut shape = String::new();
+        // without certificates (Miri) only the XML-only variants
+        let choice = if self.crypto.is_some() { self.rng.below(10) } else { *self.rng.pick(&[0u64, 4, 5, 6]) };
+        let (variant, msg): (&'static str, prov::Message) = match choice {
+            0 => ("provisioning.list", prov::Message::list(sender, recipient)),
+            1 | 7 | 8 => {
+                let (n, ncls) = self.list_len(6);
+                let mut classes = Vec::new();
+                let mut first_shape = String::new();
+                for i in 0..n {
+                    let (e, sh) = self.entitlement(&mut strings, &mut text_fields);
+                    if i == 0 {
+                        first_shape = sh;
+                    }
+                    classes.push(e);
+                }
+                shape = format!("classes={ncls},{first_shape}");
+                (
+                    "provisioning.list_response",
+                    prov::Message::list_response(sender, recipient, prov::ResourceClassListResponse::new(classes)),
+                )
+            }
+            2 => {
+                let c = self.crypto.expect("crypto");
+                let (name, s) = self.class_name();
+                strings.push(("class_name", s));
+                let lim = self.limit(&mut text_fields);
+                shape = format!("limit:{}", lim.class);
+                let req = prov::IssuanceRequest::new(name, lim.limit, self.rng.pick(&c.csrs).clone());
+                ("provisioning.issue", prov::Message::issue(sender, recipient, req))
+            }
+            3 | 9 => {
+                let c = self.crypto.expect("crypto");
+                let (name, s) = self.class_name();
+                strings.push(("class_name", s));
+                let set = self.resource_set(&mut text_fields);
+                let not_after = if self.rng.chance(1, 50) {
+                    // the wire format carries whole seconds only
+                    lenient = Some("sub-second-not-after");
+                    gen::subsecond_time(&mut self.rng)
+                } else {
+                    let t = gen::whole_second_time(&mut self.rng);
+                    text_fields.push(TextField::NotAfter(t));
+                    t
+                };
+                let lim = self.limit(&mut text_fields);
+                let issued = prov::IssuedCert::new(self.rsync(), lim.limit, self.rng.pick(&c.certs).clone());
+                let signing = prov::SigningCert::new(self.rsync(), self.rng.pick(&c.certs).clone());
+                shape = format!("{},limit:{}", set.class, lim.class);
+                let resp = prov::IssuanceResponse::new(name, set.set, not_after, issued, signing);
+                ("provisioning.issue_response", prov::Message::issue_response(sender, recipient, resp))
+            }
+            4 => {
+                let (name, s) = self.class_name();
+                strings.push(("class_name", s));
+                let req = prov::RevocationRequest::new(name, self.key_id());
+                ("provisioning.revoke", prov::Message::revoke(sender, recipient, req))
+            }
+            5 => {
+                let (name, s) = self.class_name();
+                strings.push(("class_name", s));
+                let req = prov::RevocationRequest::new(name, self.key_id());
+                let resp = if self.rng.bool() {
+                    prov::RevocationResponse::from(&req)
+                } else {
+                    prov::RevocationResponse::new((*req).clone())
+                };
+                ("provisioning.revoke_response", prov::Message::revoke_response(sender, recipient, resp))
+            }
+            _ => {
+                let (code, resp) = match self.rng.below(11) {
+                    0 => (1101, prov::NotPerformedResponse::err_1101()),
+                    1 => (1102, prov::NotPerformedResponse::err_1102()),
+                    2 => (1103, prov::NotPerformedResponse::err_1103()),
+                    3 => (1104, prov::NotPerformedResponse::err_1104()),
+                    4 => (1201, prov::NotPerformedResponse::err_1201()),
+                    5 => (1202, prov::NotPerformedResponse::err_1202()),
+                    6 => (1203, prov::NotPerformedResponse::err_1203()),
+                    7 => (1204, prov::NotPerformedResponse::err_1204()),
+                    8 => (1301, prov::NotPerformedResponse::err_1301()),
+                    9 => (1302, prov::NotPerformedResponse::err_1302()),
+                    _ => (2001, prov::NotPerformedResponse::err_2001()),
+                };
+                match prov::Message::not_performed_response(sender.clone(), recipient.clone(), resp) {
+                    Ok(m) => {
+                        shape = format!("code={code}");
+                        ("provisioning.error_response", m)
+                    }
+                    Err(_) => {
+                        // the constructor returns a Result; a refusal is fine
+                        self.refused_other += 1;
+                        ("provisioning.list", prov::Message::list(sender, recipient))
+                    }
+                }
+            }
+        };
+        Case { variant, msg: AnyMsg::Prov(msg), strings, shape, text_fields, lenient }
+    }
+
+    //--- publication
+
+    fn publish_content(&mut self, lenient: &mut Option<&'static str>) -> (publ::Base64, &'static str) {
+        if self.rng.chance(1, 60) {
+            *lenient = Some("empty-base64-content");
+            return (publ::Base64::from_content(b""), "empty");
+        }
+        if let Some(c) = self.crypto {
+            if self.rng.chance(1, 6) {
+                return (publ::Base64::from(self.rng.pick(&c.certs)), "cert");
+            }
+        }
+        let bytes = gen::content(&mut self.rng);
+        let class = match bytes.len() % 3 {
+            0 => "len%3=0",
+            1 => "len%3=1",
+            _ => "len%3=2",
+        };
+        (publ::Base64::from_content(&bytes), class)
+    }
+
+    fn publication(&mut self) -> Case {
+        match self.rng.below(10) {
+            0 => Case::new("publication.list_query", AnyMsg::Publ(publ::Message::list_query())),
+            1 => Case::new("publication.success", AnyMsg::Publ(publ::Message::success())),
+            2 | 3 => {
+                let (n, ncls) = match self.rng.below(12) {
+                    0 if !gen::small() => (self.rng.range(100, 600) as usize, "many"),
+                    _ => self.list_len(40),
+                };
+                let mut reply = if self.rng.bool() { publ::ListReply::empty() } else { publ::ListReply::new(Vec::new()) };
+                for _ in 0..n {
+                    let el = publ::ListElement::new(self.rsync(), rrdp::Hash::from(gen::hash32(&mut self.rng)));
+                    reply.add_element(el);
+                }
+                let mut case = Case::new("publication.list_reply", AnyMsg::Publ(publ::Message::list_reply(reply)));
+                case.shape = format!("elements={ncls}");
+                case
+            }
+            4 => {
+                // error reply
+                let codes = [
+                    publ::ReportErrorCode::XmlError,
+                    publ::ReportErrorCode::PermissionFailure,
+                    publ::ReportErrorCode::BadCmsSignature,
+                    publ::ReportErrorCode::ObjectAlreadyPresent,
+                    publ::ReportErrorCode::NoObjectPresent,
+                    publ::ReportErrorCode::NoObjectMatchingHash,
+                    publ::ReportErrorCode::ConsistencyProblem,
+                    publ::ReportErrorCode::OtherError,
+                ];
+                let mut lenient = None;
+                let (n, ncls) = match self.rng.below(30) {
+                    0 => {
+                        lenient = Some("error-reply-without-errors");
+                        (0, "0")
+                    }
+                    1..=12 => (1, "1"),
+                    _ => (self.rng.range(2, 9) as usize, "many"),
+                };
+                let mut first = String::new();
+                let reply = if n == 1 && self.rng.bool() {
+                    let code = self.rng.pick(&codes).clone();
+                    first = code.to_string();
+                    publ::ErrorReply::for_error(publ::ReportError::with_code(code))
+                } else {
+                    let mut r = publ::ErrorReply::empty();
+                    for i in 0..n {
+                        let code = self.rng.pick(&codes).clone();
+                        if i == 0 {
+                            first = code.to_string();
+                        }
+                        r.add_error(publ::ReportError::with_code(code));
+                    }
+                    r
+                };
+                let mut case = Case::new("publication.error_reply", AnyMsg::Publ(publ::Message::error(reply)));
+                case.shape = format!("errors={ncls},first={first}");
+                case.lenient = lenient;
+                case
+            }
+            _ => {
+                // delta of publish / update / withdraw
+                let (n, ncls) = self.list_len(12);
+                let mut delta = publ::PublishDelta::empty();
+                let mut lenient = None;
+                let mut kinds = [false; 3];
+                let mut strings = Vec::new();
+                let mut content_class = "-";
+                // tag-less elements only in a few deltas (they make the case lenient)
+                let allow_tagless = self.rng.chance(1, 25);
+                for _ in 0..n {
+                    let uri = self.rsync();
+                    let hash_tag = self.crypto.is_some() && self.rng.chance(1, 8);
+                    let tag = if allow_tagless && self.rng.bool() { None } else { Some(gen::freeform(&mut self.rng)) };
+                    if tag.is_none() && !hash_tag {
+                        // RFC 8181: the tag attribute is mandatory on <publish> and <withdraw>
+                        lenient = Some("publish-or-withdraw-without-tag");
+                    }
+                    if let Some(t) = &tag {
+                        if !hash_tag {
+                            strings.push(("tag", t.clone()));
+                        }
+                    }
+                    match self.rng.below(3) {
+                        0 => {
+                            kinds[0] = true;
+                            let (content, cc) = self.publish_content(&mut lenient);
+                            content_class = cc;
+                            if hash_tag && cc != "empty" {
+                                delta.add_publish(publ::Publish::with_hash_tag(uri, content));
+                            } else {
+                                delta.add_publish(publ::Publish::new(tag, uri, content));
+                            }
+                        }
+                        1 => {
+                            kinds[1] = true;
+                            let (content, cc) = self.publish_content(&mut lenient);
+                            content_class = cc;
+                            let old = rrdp::Hash::from(gen::hash32(&mut self.rng));
+                            if hash_tag && cc != "empty" {
+                                delta.add_update(publ::Update::with_hash_tag(uri, content, old));
+                            } else {
+                                delta.add_update(publ::Update::new(tag, uri, content, old));
+                            }
+                        }
+                        _ => {
+                            kinds[2] = true;
+                            let old = rrdp::Hash::from(gen::hash32(&mut self.rng));
+                            if hash_tag {
+                                delta.add_withdraw(publ::Withdraw::with_hash_tag(uri, old));
+                            } else {
+                                delta.add_withdraw(publ::Withdraw::new(tag, uri, old));
+                            }
+                        }
+                    }
+                }
+                // a tag-less, hash-tagged element is not lenient; recompute
+                let mut case = Case::new("publication.delta", AnyMsg::Publ(publ::Message::delta(delta)));
+                case.strings = strings;
+                case.shape = format!(
+                    "elements={ncls},publish={},update={},withdraw={},content={content_class}",
+                    kinds[0], kinds[1], kinds[2]
+                );
+                case.lenient = lenient;
+                case
+            }
+        }
+    }
+
+    //--- RFC 8183
+
+    fn idexchange(&mut self) -> Case {
+        let mut lenient = None;
+        let (id_cert, idc) = self.id_cert(&mut lenient);
+        let mut case = match self.rng.below(5) {
+            0 => {
+                let (h, _) = self.handle(&mut lenient);
+                if self.rng.bool() {
+                    Case::new("idexchange.child_request", AnyMsg::ChildReq(ChildRequest::new(id_cert, h)))
+                } else {
+                    // the only public way to a child request *with* a tag that is
+                    // not the XML parser: serde
+                    let tag = gen::freeform(&mut self.rng);
+                    let v = json!({"id_cert": id_cert.as_str(), "child_handle": h.as_str(), "tag": tag});
+                    match serde_json::from_value::<ChildRequest>(v) {
+                        Ok(req) => {
+                            let mut c = Case::new("idexchange.child_request", AnyMsg::ChildReq(req));
+                            c.strings.push(("tag", tag));
+                            c
+                        }
+                        Err(_) => {
+                            // serde re-validates the handle: an unchecked one is refused here
+                            self.refused_other += 1;
+                            Case::new("idexchange.child_request", AnyMsg::ChildReq(ChildRequest::new(id_cert, h)))
+                        }
+                    }
+                }
+            }
+            1 | 2 => {
+                let (p, _) = self.handle(&mut lenient);
+                let (c, _) = self.handle(&mut lenient);
+                let (su, sus) = self.service_uri();
+                let tag = self.tag();
+                let mut case = Case::new(
+                    "idexchange.parent_response",
+                    AnyMsg::ParentResp(ParentResponse::new(id_cert, p, c, su, tag.clone())),
+                );
+                case.strings.push(("service_uri", sus));
+                if let Some(t) = tag {
+                    case.strings.push(("tag", t));
+                }
+                case
+            }
+            3 => {
+                let (h, _) = self.handle(&mut lenient);
+                let tag = self.tag();
+                let mut case =
+                    Case::new("idexchange.publisher_request", AnyMsg::PubReq(PublisherRequest::new(id_cert, h, tag.clone())));
+                if let Some(t) = tag {
+                    case.strings.push(("tag", t));
+                }
+                case
+            }
+            _ => {
+                let (h, _) = self.handle(&mut lenient);
+                let (su, sus) = self.service_uri();
+                let sia = self.rsync();
+                let rrdp_uri = if self.rng.chance(2, 3) { Some(self.https()) } else { None };
+                let tag = self.tag();
+                let mut case = Case::new(
+                    "idexchange.repository_response",
+                    AnyMsg::RepoResp(RepositoryResponse::new(id_cert, h, su, sia.clone(), rrdp_uri.clone(), tag.clone())),
+                );
+                case.strings.push(("service_uri", sus));
+                case.strings.push(("sia_base", sia.to_string()));
+                if let Some(u) = rrdp_uri {
+                    case.strings.push(("rrdp_notification_uri", u.to_string()));
+                }
+                if let Some(t) = tag {
+                    case.strings.push(("tag", t));
+                }
+                case
+            }
+        };
+        case.shape = format!("id_cert={idc}");
+        case.lenient = lenient;
+        case
+    }
+
+    fn case(&mut self) -> Case {
+        match self.rng.below(10) {
+            0..=3 => self.provisioning(),
+            4..=6 => self.publication(),
+            _ => self.idexchange(),
+        }
+    }
+}
+
+//------------ well-formedness oracle (batched) --------------------------------
+
+struct WfDoc {
+    start: usize,
+    len: usize,
+    variant: &'static str,
+    lenient: Option<&'static str>,
+    strings: Vec<(&'static str, String)>,
+}
+
+struct WfBatch {
+    stream: Vec<u8>,
+    docs: Vec<WfDoc>,
+    enabled: bool,
+    checked: u64,
+    batches: u64,
+}
+
+fn expat_kind(msg: &str) -> String {
+    // "not well-formed (invalid token): line 1, column 9" -> "not-well-formed-(invalid-token)"
+    let head = msg.split(": line").next().unwrap_or(msg);
+    head.chars().map(|c| if c.is_ascii_alphanumeric() || c == '(' || c == ')' { c } else { '-' }).collect()
+}
+
+impl WfBatch {
+    fn new(enabled: bool) -> Self {
+        WfBatch { stream: Vec::new(), docs: Vec::new(), enabled, checked: 0, batches: 0 }
+    }
+
+    fn push(&mut self, ctx: &mut Ctx, case: &Case, doc: &[u8]) {
+        if !self.enabled {
+            return;
+        }
+        self.stream.extend_from_slice(&(doc.len() as u32).to_be_bytes());
+        let start = self.stream.len();
+        self.stream.extend_from_slice(doc);
+        self.docs.push(WfDoc {
+            start,
+            len: doc.len(),
+            variant: case.variant,
+            lenient: case.lenient,
+            strings: case.strings.clone(),
+        });
+        if self.stream.len() >= 6 << 20 || self.docs.len() >= 1500 {
+            self.flush(ctx);
+        }
+    }
+
+    fn run_oracle(stream: &[u8]) -> Result<Value, String> {
+        let script = concat!(env!("CARGO_MANIFEST_DIR"), "/../tools/xml_wf.py");
+        let mut child = Command::new("python3")
+            .arg(script)
+            .stdin(Stdio::piped())
+            .stdout(Stdio::piped())
+            .stderr(Stdio::null())
+            .spawn()
+            .map_err(|e| format!("cannot start python3: {e}"))?;
+        {
+            // the script reads all of stdin before it writes anything
+            let mut stdin = child.stdin.take().ok_or("no stdin")?;
+            stdin.write_all(stream).map_err(|e| format!("write to oracle: {e}"))?;
+        }
+        let out = child.wait_with_output().map_err(|e| format!("wait for oracle: {e}"))?;
+        if !out.status.success() {
+            return Err(format!("oracle exit status {:?}: {}", out.status.code(), String::from_utf8_lossy(&out.stdout)));
+        }
+        serde_json::from_slice::<Value>(&out.stdout).map_err(|e| format!("oracle output: {e}"))
+    }
+
+    fn flush(&mut self, ctx: &mut Ctx) {
+        if self.docs.is_empty() {
+            return;
+        }
+        match Self::run_oracle(&self.stream) {
+            Err(e) => {
+                // inability is never a violation
+                ctx.obs("wf_oracle_failed_batches", 1);
+                let note = format!("C11: well-formedness oracle could not run: {e}");
+                if !ctx.notes.contains(&note) && ctx.notes.len() < 4 {
+                    ctx.notes.push(note);
+                }
+            }
+            Ok(v) => {
+                let count = v["count"].as_u64().unwrap_or(0);
+                if count != self.docs.len() as u64 {
+                    ctx.obs("wf_oracle_failed_batches", 1);
+                    ctx.notes.push(format!("C11: oracle saw {count} documents, {} were sent", self.docs.len()));
+                } else {
+                    self.batches += 1;
+                    self.checked += count;
+                    ctx.evals(count);
+                    ctx.obs("wf_documents_checked_by_expat", count);
+                    if let Some(bad) = v["bad"].as_array() {
+                        for b in bad {
+                            let idx = b[0].as_u64().unwrap_or(0) as usize;
+                            let msg = b[1].as_str().unwrap_or("?").to_string();
+                            let d = &self.docs[idx];
+                            let doc = &self.stream[d.start..d.start + d.len];
+                            let strings: Vec<Value> =
+                                d.strings.iter().map(|(n, v)| json!({"field": n, "value": clip(v, 400)})).collect();
+                            let detail = json!({
+                                "variant": d.variant,
+                                "expat": msg,
+                                "string_fields": strings,
+                                "xml": clip(&String::from_utf8_lossy(doc), 6000),
+                            });
+                            match d.lenient {
+                                Some(r) => ctx.obs(&format!("lenient:{r}:not-well-formed"), 1),
+                                None => ctx.violation(
+                                    &format!("C11:not-well-formed:{}:{}", d.variant, expat_kind(&msg)),
+                                    &format!("{} message written by the library is not well-formed XML: {}", d.variant, msg),
+                                    detail,
+                                ),
+                            }
+                        }
+                    }
+                }
+            }
+        }
+        self.stream.clear();
+        self.docs.clear();
+    }
+}
+
+//------------ the monitor ------------------------------------------------------
+
+struct Reservoir {
+    docs: Vec<(Kind, &'static str, Vec<u8>)>,
+}
+
+impl Reservoir {
+    fn offer(&mut self, rng: &mut Rng, kind: Kind, variant: &'static str, doc: &[u8]) {
+        if doc.len() > 40_000 {
+            return;
+        }
+        if self.docs.len() < 48 {
+            self.docs.push((kind, variant, doc.to_vec()));
+        } else if rng.chance(1, 4) {
+            let i = rng.usize_below(self.docs.len());
+            self.docs[i] = (kind, variant, doc.to_vec());
+        }
+    }
+}
+
+fn check_case(ctx: &mut Ctx, case: &Case, wf: &mut WfBatch) -> Option<Vec<u8>> {
+    let variant = case.variant;
+    // --- write
+    let doc = match ctx.no_panic(&format!("write:{variant}"), || case.describe(None), || case.msg.write()) {
+        None => return None,
+        Some(Err(e)) => {
+            // an in-memory writer cannot fail; the to_xml_* helpers unwrap this
+            match case.lenient {
+                Some(r) => ctx.obs(&format!("lenient:{r}:write-error"), 1),
+                None => ctx.violation(
+                    &format!("C11:write-error:{variant}"),
+                    &format!("write_xml into a Vec failed: {e}"),
+                    case.describe(None),
+                ),
+            }
+            return None;
+        }
+        Some(Ok(d)) => d,
+    };
+    ctx.obs_max("document_bytes", doc.len() as u64);
+    // --- oracle 1 (deferred): well-formedness
+    wf.push(ctx, case, &doc);
+    // --- oracle 2: round trip
+    let kind = case.msg.kind();
+    let back = ctx.no_panic(&format!("decode-own-output:{variant}"), || case.describe(Some(&doc)), || kind.parse(&doc));
+    ctx.eval();
+    let failure: Option<(&'static str, String)> = match back {
+        None => None, // panic already reported
+        Some(Err(e)) => Some(("decode-error", e)),
+        Some(Ok(m)) => {
+            if m == case.msg {
+                None
+            } else {
+                Some(("not-equal", "the parsed message differs from the written one".to_string()))
+            }
+        }
+    };
+    match (&failure, case.lenient) {
+        (None, None) => ctx.obs("roundtrip_equal", 1),
+        (None, Some(r)) => ctx.obs(&format!("lenient:{r}:roundtrip-equal"), 1),
+        (Some((what, _)), Some(r)) => ctx.obs(&format!("lenient:{r}:{what}"), 1),
+        (Some((what, err)), None) => {
+            // name the culprit if one of the attribute values has a text form
+            // that does not parse back by itself
+            let culprits: Vec<(&'static str, &'static str, String)> =
+                case.text_fields.iter().filter_map(|f| f.broken()).collect();
+            let mut kinds: Vec<&str> = culprits.iter().map(|c| c.1).collect();
+            kinds.sort();
+            kinds.dedup();
+            let sig = if kinds.is_empty() {
+                format!("C11:roundtrip:{variant}:{what}")
+            } else {
+                format!("C11:roundtrip:{what}:{}", kinds.join("+"))
+            };
+            let mut detail = case.describe(Some(&doc));
+            detail["error"] = json!(err);
+            detail["fields_whose_text_form_does_not_parse_back"] = json!(culprits
+                .iter()
+                .take(8)
+                .map(|(f, k, t)| json!({"field": f, "kind": k, "text_written_by_display": clip(t, 600)}))
+                .collect::<Vec<_>>());
+            ctx.violation(
+                &sig,
+                &format!("{variant}: the library does not parse its own output back to an equal message ({what}: {err})"),
+                detail,
+            );
+        }
+    }
+    Some(doc)
+}
+
+fn feed_parser(ctx: &mut Ctx, kind: Kind, origin: &str, mutator: &'static str, doc: &[u8]) {
+    let what = format!("parse:{}", kind.name());
+    let res = ctx.no_panic(
+        &what,
+        || json!({"parser": kind.name(), "derived_from": origin, "mutator": mutator, "input_hex": crate::core::hex(&doc[..doc.len().min(20_000)]), "input_lossy": clip(&String::from_utf8_lossy(doc), 4000)}),
+        || kind.parse(doc),
+    );
+    ctx.eval();
+    // resource chains built from hostile attribute text are checked by hook H1
+    ctx.drain_chain_hook(|| {
+        json!({"while": "parsing a mutated document", "parser": kind.name(), "derived_from": origin, "mutator": mutator,
+               "input_lossy": clip(&String::from_utf8_lossy(doc), 6000), "input_hex": crate::core::hex(&doc[..doc.len().min(20_000)])})
+    });
+    match res {
+        None => ctx.obs("parser_panics", 1),
+        Some(Err(_)) => ctx.obs("mutants_rejected", 1),
+        Some(Ok(m)) => {
+            ctx.obs("mutants_accepted", 1);
+            ctx.obs(&format!("accepted_by:{}", mutator), 1);
+            // second generation: writing what was parsed must not panic; whether
+            // it round-trips is recorded only (its field values need not be
+            // protocol-valid)
+            let w = ctx.no_panic(
+                &format!("write-parsed:{}", kind.name()),
+                || json!({"parser": kind.name(), "mutator": mutator, "input_hex": crate::core::hex(&doc[..doc.len().min(20_000)])}),
+                || m.write(),
+            );
+            if let Some(Ok(doc2)) = w {
+                let again = ctx.no_panic(
+                    &format!("parse:{}", kind.name()),
+                    || json!({"parser": kind.name(), "mutator": "rewrite-of-accepted-mutant", "input_hex": crate::core::hex(&doc2[..doc2.len().min(20_000)])}),
+                    || kind.parse(&doc2),
+                );
+                match again {
+                    Some(Ok(m2)) if m2 == m => ctx.obs("accepted_mutant_rewrite_roundtrips", 1),
+                    Some(Ok(_)) => {
+                        ctx.obs("accepted_mutant_rewrite_differs", 1);
+                        ctx.sample("accepted mutant, rewritten (recorded only)", || {
+                            json!({"parser": kind.name(), "mutator": mutator, "observed": "accepted; its rewrite parses to a different message", "input": clip(&String::from_utf8_lossy(doc), 500), "rewritten": clip(&String::from_utf8_lossy(&doc2), 500)})
+                        });
+                    }
+                    Some(Err(e)) => {
+                        ctx.obs("accepted_mutant_rewrite_rejected", 1);
+                        ctx.sample("accepted mutant, rewritten (recorded only)", || {
+                            json!({"parser": kind.name(), "mutator": mutator, "observed": format!("accepted; its rewrite is rejected: {e}"), "input": clip(&String::from_utf8_lossy(doc), 500), "rewritten": clip(&String::from_utf8_lossy(&doc2), 500)})
+                        });
+                    }
+                    None => {}
+                }
+            }
+        }
+    }
+    ctx.sample(if mutator.starts_with("random") { "random document" } else { "mutant of a valid document" }, || {
+        json!({"parser": kind.name(), "derived_from": origin, "mutator": mutator, "input": clip(&String::from_utf8_lossy(doc), 300), "observed": "returned without panic"})
+    });
+}
 
 pub fn run(ctx: &mut Ctx) {
-    ctx.notes.push("C11: monitor not built yet".into());
+    let no_ffi = ctx.no_ffi();
+    gen::set_small(ctx.is_miri());
+    let crypto = if no_ffi {
+        None
+    } else {
+        match crate::core::catch(Crypto::build) {
+            Ok(Ok(c)) => Some(c),
+            Ok(Err(e)) => {
+                ctx.notes.push(format!("C11: could not build certificates with the library ({e}); certificate-bearing variants skipped"));
+                None
+            }
+            Err(p) => {
+                ctx.notes.push(format!("C11: panic while building certificates ({p}); certificate-bearing variants skipped"));
+                None
+            }
+        }
+    };
+    if no_ffi {
+        ctx.notes.push("miri stage: XML-only variants (no certificates, no hashing), expat oracle not available under the interpreter".into());
+    }
+    ctx.drain_chain_hook(|| json!("building the certificate pool"));
+
+    let n_cases = ctx.stage_budget((3_200, 200_000), 20_000, 240, 0);
+    let mutants_per_case: u64 = match ctx.stage {
+        Stage::Native => match ctx.tier {
+            crate::core::Tier::Quick => 16,
+            crate::core::Tier::Thorough => 25,
+        },
+        Stage::Asan => 10,
+        Stage::Miri => 3,
+        Stage::Valgrind => 2,
+    };
+
+    let mut g = Gen {
+        rng: ctx.rng("cases"),
+        crypto: crypto.as_ref(),
+        refused_uri: 0,
+        refused_handle: 0,
+        res_stats: gen::ResStats::default(),
+        refused_other: 0,
+    };
+    let mut mrng = ctx.rng("mutants");
+    let mut wf = WfBatch::new(!ctx.is_miri());
+    let mut pool = Reservoir { docs: Vec::new() };
+
+    let trace = std::env::var_os("VERIF_C11_TRACE").is_some();
+    for i in 0..n_cases {
+        if trace {
+            eprintln!("C11 trace: case {i} at {:.1}s, {} evaluations", ctx.elapsed_s(), ctx.evaluations);
+        }
+        let built = crate::core::catch(|| g.case());
+        let case = match built {
+            Ok(c) => c,
+            Err(p) => {
+                // a panic inside a public constructor fed with printable ASCII
+                let loc = crate::core::panic_location(&p);
+                ctx.violation(
+                    &format!("C11:panic:construct:{loc}"),
+                    &format!("panic while constructing a message through the public API: {p}"),
+                    json!({"case_index": i}),
+                );
+                continue;
+            }
+        };
+        ctx.drain_chain_hook(|| json!({"while": "generating field values", "variant": case.variant}));
+        ctx.obs(&format!("cases:{}", case.variant), 1);
+        if i % 16 == 0 {
+            ctx.breadcrumb(&format!("C11 shard {}/{} stage {:?}: at case {} ({}); mutants follow each case", ctx.shard, ctx.nshards, ctx.stage, i, case.variant));
+        }
+        if case.lenient.is_none() {
+            ctx.sig(&case.signature());
+        }
+        let doc = check_case(ctx, &case, &mut wf);
+        ctx.drain_chain_hook(|| json!({"while": "parsing own output", "variant": case.variant}));
+        let doc = match doc {
+            Some(d) => d,
+            None => continue,
+        };
+        let sample_key = match (case.lenient, case.msg.kind()) {
+            (Some(_), _) => "value outside the protocols (recorded only)",
+            (None, Kind::Prov) => "RFC 6492 message",
+            (None, Kind::Publ) => "RFC 8181 message",
+            (None, _) => "RFC 8183 message",
+        };
+        if ctx.wants_sample(sample_key) {
+            let back = case.msg.kind().parse(&doc);
+            let observed = match &back {
+                Ok(m) if *m == case.msg => "parsed back to an equal message".to_string(),
+                Ok(_) => "parsed back to a different message".to_string(),
+                Err(e) => format!("own output rejected: {e}"),
+            };
+            ctx.sample(sample_key, || {
+                let mut d = case.describe(Some(&doc));
+                d["xml"] = json!(clip(&String::from_utf8_lossy(&doc), 600));
+                d["observed"] = json!(observed);
+                d
+            });
+        }
+        let kind = case.msg.kind();
+        pool.offer(&mut mrng, kind, case.variant, &doc);
+
+        // --- oracle 3: mutants of this and of earlier documents
+        for k in 0..mutants_per_case {
+            let (src_kind, origin, src): (Kind, &'static str, &[u8]) = if k % 4 == 3 && !pool.docs.is_empty() {
+                let e = &pool.docs[mrng.usize_below(pool.docs.len())];
+                (e.0, e.1, &e.2)
+            } else {
+                (kind, case.variant, &doc)
+            };
+            if src.len() > 40_000 && k > 2 {
+                continue;
+            }
+            let (name, mutant) = match mrng.below(20) {
+                0..=7 => mutate::byte_mutation(&mut mrng, src),
+                8..=16 => mutate::tag_mutation(&mut mrng, src),
+                17 => {
+                    let (_, a) = mutate::tag_mutation(&mut mrng, src);
+                    let (_, b) = mutate::tag_mutation(&mut mrng, &a);
+                    ("stacked:tag+tag", b)
+                }
+                18 => {
+                    let (_, a) = mutate::tag_mutation(&mut mrng, src);
+                    let (_, b) = mutate::byte_mutation(&mut mrng, &a);
+                    ("stacked:tag+byte", b)
+                }
+                _ => mutate::random_document(&mut mrng),
+            };
+            let origin = if name.starts_with("random") { "(not derived)" } else { origin };
+            feed_parser(ctx, src_kind, origin, name, &mutant);
+            if mrng.chance(1, 6) {
+                // the wrong parser for this document
+                let other = *mrng.pick(&KINDS);
+                feed_parser(ctx, other, origin, name, &mutant);
+            }
+            ctx.sig(&format!("mutant|{}|{}", src_kind.name(), name));
+        }
+    }
+    wf.flush(ctx);
+
+    ctx.obs("constructor_refused:uri_candidates", g.refused_uri);
+    ctx.obs("constructor_refused:handles", g.refused_handle);
+    ctx.obs("constructor_refused:resource_text", g.res_stats.refused_text);
+    ctx.obs("resource_blocks_built_from_text", g.res_stats.via_from_str);
+    ctx.obs("resource_blocks_built_with_builder", g.res_stats.via_builder);
+    ctx.obs("ipv6_block_lists_touching_v4_mapped", g.res_stats.v6_touching_v4_mapped);
+    ctx.obs("constructor_refused:other", g.refused_other);
+    if wf.enabled && wf.checked == 0 {
+        ctx.notes.push("C11: the expat oracle checked no document in this shard".into());
+    }
 }
